@@ -202,6 +202,9 @@ def run(ck):
     # the (date, index) key identifies rotation order only if indices are handed out in increasing order: index = max + 1
     from rules.c09 import next_index
     next_index(ck, S, "C06-O5")
+    ck.rule("C06-O10", "the file-count limit given to the constructor reaches the private object's member unchanged (evaluated by cases)")
+    from rules.rfs import limits_intact
+    limits_intact(ck, S, "C06-O10", "count")
     name_pattern(ck, S, S.m["findRotatedFiles"], "C06-O6", date_is_class=True)
     # ... and the names the writer produces are exactly the names that pattern finds (otherwise the count is never bounded)
     ck.rule("C06-O7", "retention sees every rotated file: the name writer and findRotatedFiles() agree on fields, order, separators, the split of the active name, and the digits of the date (locale-independent)")
